@@ -23,20 +23,27 @@ theorem mem_zip_padTo {as : List Nat} {l : List (Option Nat)} {n a ll : Nat} (hm
 /-- the own nodes: the cell and everything behind the host's nodes -/
 def ownN (h : NNet) (c : Nat) (x : Nat) : Prop := x = c ∨ h.net.nodes.size ≤ x
 
-theorem substituteCore_cert (h : NNet) (c : Nat) (m : NNet) (sh : Shape) (dn : Nat)
-    (hw : WF h) (mw : WF m) (hc : c < h.net.nodes.size) (hio : c ∉ h.net.io) (hcf : (h.net.node c).isFork = false)
-    (hs : implShape m = some sh) (hd : sh.des = some dn)
+/-- the certificate for the phases of `substituteCore`, run with the cell kept as the copy of node `dn` of the implementation
+    (the designated cell; or, for an implementation without designated cell, the *virtual* run with `dn` = the number of nodes
+    of the implementation: the cell stays in the circuit as an isolated node of kind `""`) -/
+theorem substituteCore_certP (h : NNet) (c : Nat) (m : NNet) (sh : Shape) (dn : Nat)
+    (hw : WFr h) (mw : WF m) (hc : c < h.net.nodes.size) (hio : c ∉ h.net.io) (hcf : (h.net.node c).isFork = false)
+    (hs : implShape m = some sh) (hd : dn < m.net.nodes.size → sh.des = some dn) (hdnf : (m.net.node dn).isFork = false)
     (hdn : dn ∉ m.net.io) (hnd : m.net.io.Nodup) (hps : ∀ p ∈ m.net.io, isSeqKind (m.net.node p).kind = false)
     (hpf : ∀ p ∈ m.net.io, 0 < (m.net.node p).ins.length → 0 < (m.net.node p).outs.length → (m.net.node p).isFork = true)
     (hni : NoIgnored m (sh.inPorts.zip (padTo (h.net.node c).ins sh.inPorts.length)))
-    (h5 : NNet) (map : Array (Option Nat)) (dang : List (Option Nat)) (he : substituteCore h c m = some (h5, map, dang)) :
-    SubstCert h c m sh dn map h5 := by
-  obtain ⟨h2, net4, ren, net5, hil, hol, hfold, hci, hco, e⟩ := substituteCore_inv h c m sh hs h5 map dang he
-  obtain ⟨hdnlt, hdnf⟩ := implShape_des m mw sh dn hs hd
-  rw [hd] at hfold
+    (h5 : NNet) (map : Array (Option Nat)) (dang : List (Option Nat))
+    (h2 : NNet) (net4 net5 : Net) (ren : Option Nat → Option Nat)
+    (hil : (h.net.node c).ins.length ≤ sh.inPorts.length) (hol : (h.net.node c).outs.length ≤ sh.outLines.length)
+    (hfold : (List.range m.net.nodes.size).foldlM (addImplNode m (h.names.getD c "") (some dn)) (phase1 h c m (some dn)) = some (h2, map))
+    (hci : connectIns m map (sh.inPorts.zip (padTo (h.net.node c).ins sh.inPorts.length)) (phase3 m map h2, id) = some (net4, ren))
+    (hco : connectOuts m map (sh.outLines.zip ((padTo (h.net.node c).outs sh.outLines.length).map ren)) (net4, []) = some (net5, dang))
+    (e : h5 = { h2 with net := net5 }) :
+    SubstCert h c m sh dn map h5 ∧
+    (∀ x, x < h5.net.nodes.size → ownN h c x → noTrail (h5.net.node x).ins = true ∧ noTrail (h5.net.node x).outs = true) := by
   have iv : NodeInv h c m dn (h.names.getD c "") (List.range m.net.nodes.size) (h2, map) := by
     have := nodeInv_foldlM hdn (List.range m.net.nodes.size) [] _ (h2, map) (fun j hj => List.mem_range.mp hj)
-      (nodeInv_phase1 h c m dn (h.names.getD c "") hw hc hdnlt (by rw [hdnf hdn, hcf])) hfold
+      (nodeInv_phase1 h c m dn (h.names.getD c "") hw hc (by rw [hdnf, hcf])) hfold
     simpa using this
   -- frame and wiring (as in `substituteCore_wire`), keeping the facts about the lines
   have f1 := frame_phase1 h c m dn ((h.net.node c).ins.filterMap id) ((h.net.node c).outs.filterMap id)
@@ -96,7 +103,7 @@ theorem substituteCore_cert (h : NNet) (c : Nat) (m : NNet) (sh : Shape) (dn : N
     exact (pinsOnly_phase3 m map h2).trans ((pinsOnly_connectIns m map _ _ _ hci).trans (pinsOnly_connectOuts m map _ _ _ hco))
   have hN5 : h5.net.nodes.size = h2.net.nodes.size := po.1.1
   have hnames5 : h5.names = h2.names := by subst e; rfl
-  have hwire := substituteCore_wire h c m sh hs hw hc dn hd hni h5 map dang he
+  have hwire := substituteCore_wireP h c m sh hw hc dn hni h5 map dang h2 net4 net5 id hil hol hfold hci hco e
   obtain ⟨fr, hmge, win, wout⟩ := hwire
   have hkind5 : ∀ x, (h5.net.node x).kind = (h2.net.node x).kind := fun x => po.1.2 x
   -- the certificate without well-formedness
@@ -122,7 +129,7 @@ theorem substituteCore_cert (h : NNet) (c : Nat) (m : NNet) (sh : Shape) (dn : N
           have := hkind5 d
           rw [iv.cell] at this
           simp [NodeD.isFork, this]
-        rw [this, hdnf hdn, hcf]
+        rw [this, hdnf, hcf]
       · have : h5.net.node d = h.net.node d := fr.node d hd' e1
         rw [this]
     · intro j x hx
@@ -139,7 +146,7 @@ theorem substituteCore_cert (h : NNet) (c : Nat) (m : NNet) (sh : Shape) (dn : N
       by_cases hjio : j ∈ m.net.io
       · have hc1 : m.net.io.contains j = true := by simpa using hjio
         have hne : j ≠ dn := fun e => hdn (e ▸ hjio)
-        simp only [hc1, Bool.not_true, Bool.false_eq_true, if_false, hne, false_or, hjio, not_true_eq_false]
+        simp only [hc1, Bool.not_true, Bool.false_eq_true, if_false, hne, false_and, false_or, hjio, not_true_eq_false]
         by_cases c1 : (m.net.node j).outs.length > 0 && (m.net.node j).ins.length > 0
         · simp only [c1, if_true, Option.isSome_some, true_iff]
           simp only [Bool.and_eq_true, decide_eq_true_eq] at c1
@@ -156,14 +163,20 @@ theorem substituteCore_cert (h : NNet) (c : Nat) (m : NNet) (sh : Shape) (dn : N
       · have hc1 : m.net.io.contains j = false := by simpa using hjio
         simp only [hc1, Bool.not_false, if_true, hjio, not_false_eq_true, true_or, iff_true]
         by_cases e1 : j = dn
-        · exact Or.inl e1
+        · exact Or.inl ⟨e1, e1 ▸ hj⟩
         · right
           have : (some dn != some j) = true := by simp [bne, Ne.symm e1]
           simp [this]
     · intro j x hx
       by_cases e1 : j = dn
       · subst e1
-        have : x = c := by rw [iv.mapDn] at hx; exact (Option.some.inj hx).symm
+        have hjm : j < m.net.nodes.size := by
+          apply Classical.byContradiction; intro hge
+          have : map.getD j none = none := by
+            simp only [Array.getD_eq_getD_getElem?]
+            rw [Array.getElem?_eq_none (by rw [iv.msize]; omega)]; rfl
+          rw [this] at hx; exact absurd hx (by simp)
+        have : x = c := by rw [iv.mapDn hjm] at hx; exact (Option.some.inj hx).symm
         subst this
         rw [hkind5, iv.cell, if_neg hdn]
       · obtain ⟨kn, ha, hk⟩ := iv.kind j x hx e1
@@ -311,32 +324,52 @@ theorem substituteCore_cert (h : NNet) (c : Nat) (m : NNet) (sh : Shape) (dn : N
     intro l hl1 hl2
     rw [pre.lsize] at hl2
     exact ⟨l - h.net.lines.size, by omega, by omega⟩
-  have hbackR : ∀ l, l < h5.net.lines.size → (h5.net.line l).reader < h5.net.nodes.size ∧
+  have hwrittenR : ∀ l x, l < h5.net.lines.size →
+      ((h.net.lines.size ≤ l ∧ l < h5.net.lines.size) ∨ ∃ k, instIn h c k = some l) →
+      (h5.net.line l).reader = x → ownN h c x → x < h5.net.nodes.size →
+      (h5.net.line l).reader < h5.net.nodes.size ∧
       (h5.net.node (h5.net.line l).reader).ins.getD (h5.net.line l).rpin none = some l := by
+    intro l x _ hW hx hown hlt
+    refine ⟨by rw [hx]; exact hlt, ?_⟩
+    rw [hnode5, hx]
+    exact (opF.ins x _ l hown).mpr ⟨hW, by rw [htR, hx]⟩
+  -- reader side: every line ends at a node; the copied lines and the host lines that point back in the host point back
+  have hrdrLt : ∀ l, l < h5.net.lines.size → (h5.net.line l).reader < h5.net.nodes.size := by
     intro l hl
-    have hwritten : ∀ x, ((h.net.lines.size ≤ l ∧ l < h5.net.lines.size) ∨ ∃ k, instIn h c k = some l) →
-        (h5.net.line l).reader = x → ownN h c x → x < h5.net.nodes.size →
-        (h5.net.line l).reader < h5.net.nodes.size ∧
-        (h5.net.node (h5.net.line l).reader).ins.getD (h5.net.line l).rpin none = some l := by
-      intro x hW hx hown hlt
-      refine ⟨by rw [hx]; exact hlt, ?_⟩
-      rw [hnode5, hx]
-      exact (opF.ins x _ l hown).mpr ⟨hW, by rw [htR, hx]⟩
     by_cases hlt : l < h.net.lines.size
-    · by_cases hrc : (h.net.line l).reader = c
-      · have hin : instIn h c (h.net.line l).rpin = some l := by
-          have := (hw.back l hlt).2.2.2
-          rw [hrc] at this; exact this
+    · by_cases hin : ∃ k, instIn h c k = some l
+      · obtain ⟨k, hin⟩ := hin
         obtain ⟨inn, r, rp, _, htg, e1, _⟩ := pre.inWire _ l hin
         obtain ⟨k', hk'⟩ := inTarget_map htg
-        exact hwritten r (Or.inr ⟨_, hin⟩) e1 (pre.mapGe k' r hk') (pre.mapLt k' r hk')
-      · obtain ⟨f1, f2⟩ := pre.rdrFrame l hlt hrc
-        obtain ⟨_, b2, _, b4⟩ := hw.back l hlt
-        rw [f1, f2, pre.frameNode _ b2 hrc]
-        exact ⟨Nat.lt_of_lt_of_le b2 pre.nsize, b4⟩
+        exact (hwrittenR l r hl (Or.inr ⟨_, hin⟩) e1 (pre.mapGe k' r hk') (pre.mapLt k' r hk')).1
+      · have hni' : l ∉ (h.net.node c).ins.filterMap id := fun hm => hin ((mem_filterMap_id _ l).mp hm)
+        have hr : (h5.net.line l).reader = (h.net.line l).reader := (fr.rdr l hlt hni').1
+        rw [hr]
+        exact Nat.lt_of_lt_of_le (hw.back l hlt).2.1 pre.nsize
     · obtain ⟨t, ht, e'⟩ := hsplit l (by omega) hl
       obtain ⟨_, xd, xr, _, h2r, hline⟩ := pre.new_fields t ht
-      exact hwritten xr (Or.inl ⟨by omega, hl⟩) (by rw [e', hline]) (pre.mapGe _ xr h2r) (pre.mapLt _ xr h2r)
+      exact (hwrittenR l xr hl (Or.inl ⟨by omega, hl⟩) (by rw [e', hline]) (pre.mapGe _ xr h2r) (pre.mapLt _ xr h2r)).1
+  have hbackR : ∀ l, l < h5.net.lines.size → (h.net.lines.size ≤ l ∨ PtsBack h l) → PtsBack h5 l := by
+    intro l hl hpb
+    show (h5.net.node (h5.net.line l).reader).ins.getD (h5.net.line l).rpin none = some l
+    by_cases hlt : l < h.net.lines.size
+    · have hpb : (h.net.node (h.net.line l).reader).ins.getD (h.net.line l).rpin none = some l := by
+        rcases hpb with hpb | hpb
+        · omega
+        · exact hpb
+      by_cases hrc : (h.net.line l).reader = c
+      · have hin : instIn h c (h.net.line l).rpin = some l := by
+          rw [hrc] at hpb; exact hpb
+        obtain ⟨inn, r, rp, _, htg, e1, _⟩ := pre.inWire _ l hin
+        obtain ⟨k', hk'⟩ := inTarget_map htg
+        exact (hwrittenR l r hl (Or.inr ⟨_, hin⟩) e1 (pre.mapGe k' r hk') (pre.mapLt k' r hk')).2
+      · obtain ⟨f1, f2⟩ := pre.rdrFrame l hlt hrc
+        have b2 := (hw.back l hlt).2.1
+        rw [f1, f2, pre.frameNode _ b2 hrc]
+        exact hpb
+    · obtain ⟨t, ht, e'⟩ := hsplit l (by omega) hl
+      obtain ⟨_, xd, xr, _, h2r, hline⟩ := pre.new_fields t ht
+      exact (hwrittenR l xr hl (Or.inl ⟨by omega, hl⟩) (by rw [e', hline]) (pre.mapGe _ xr h2r) (pre.mapLt _ xr h2r)).2
   have hbackD : ∀ l, l < h5.net.lines.size → (h5.net.line l).driver < h5.net.nodes.size ∧
       (h5.net.node (h5.net.line l).driver).outs.getD (h5.net.line l).dpin none = some l := by
     intro l hl
@@ -351,13 +384,13 @@ theorem substituteCore_cert (h : NNet) (c : Nat) (m : NNet) (sh : Shape) (dn : N
     by_cases hlt : l < h.net.lines.size
     · by_cases hrc : (h.net.line l).driver = c
       · have hout : instOut h c (h.net.line l).dpin = some l := by
-          have := (hw.back l hlt).2.2.1
+          have := (hw.back l hlt).2.2
           rw [hrc] at this; exact this
         obtain ⟨il, d, dp, _, htg, e1, _⟩ := pre.outWire _ l hout
         obtain ⟨k', hk'⟩ := outTarget_map htg
         exact hwritten d (Or.inr ⟨_, hout⟩) e1 (pre.mapGe k' d hk') (pre.mapLt k' d hk')
       · obtain ⟨f1, f2⟩ := pre.drvFrame l hlt hrc
-        obtain ⟨b1, _, b3, _⟩ := hw.back l hlt
+        obtain ⟨b1, _, b3⟩ := hw.back l hlt
         rw [f1, f2, pre.frameNode _ b1 hrc]
         exact ⟨Nat.lt_of_lt_of_le b1 pre.nsize, b3⟩
     · obtain ⟨t, ht, e'⟩ := hsplit l (by omega) hl
@@ -370,14 +403,14 @@ theorem substituteCore_cert (h : NNet) (c : Nat) (m : NNet) (sh : Shape) (dn : N
     · by_cases h2' : x < h.net.nodes.size
       · exact Or.inr ⟨h2', h1⟩
       · exact Or.inl (Or.inr (by omega))
-  have wf5 : WF h5 := by
-    refine ⟨by rw [hnames5, hN5]; exact iv.names, ?_, ?_, ?_, ?_, ?_, ?_⟩
+  have wf5 : WFr h5 := by
+    refine ⟨by rw [hnames5, hN5]; exact iv.names, ?_, ?_, ?_, ?_, ?_⟩
     · rw [keys_eq, (obs_of_pinsOnly h2 h5 po hnames5).1, ← keys_eq]; exact iv.nodup
     · intro i hi
       rw [pre.io'] at hi
       exact Nat.lt_of_lt_of_le (hw.io i hi) pre.nsize
     · intro l hl
-      exact ⟨(hbackD l hl).1, (hbackR l hl).1, (hbackD l hl).2, (hbackR l hl).2⟩
+      exact ⟨(hbackD l hl).1, hrdrLt l hl, (hbackD l hl).2⟩
     · intro x hx k l hp
       rcases hownOr x hx with hown | ⟨h1, h2'⟩
       · rw [hnode5] at hp
@@ -408,10 +441,52 @@ theorem substituteCore_cert (h : NNet) (c : Nat) (m : NNet) (sh : Shape) (dn : N
         obtain ⟨a1, a2, a3⟩ := hw.fwdOut x h1 k l hp
         obtain ⟨f1, f2⟩ := pre.drvFrame l a1 (by rw [a2]; exact h2')
         exact ⟨by rw [pre.lsize]; omega, f1.trans a2, f2.trans a3⟩
-    · intro x hx
-      rcases hownOr x hx with hown | ⟨h1, h2'⟩
-      · rw [hnode5]; exact opF.trail x hown
-      · rw [pre.frameNode x h1 h2']; exact hw.trail x h1
-  exact ⟨pre, wf5⟩
+  refine ⟨⟨pre, wf5, hbackR, ?_⟩, ?_⟩
+  · intro x k l hown hp hlt
+    rw [hnode5] at hp
+    rcases ((opF.ins x k l hown).mp hp).1 with hW | hW
+    · omega
+    · exact hW
+  · intro x _ hown
+    rw [hnode5]; exact opF.trail x hown
+
+theorem substituteCore_certR (h : NNet) (c : Nat) (m : NNet) (sh : Shape) (dn : Nat)
+    (hw : WFr h) (mw : WF m) (hc : c < h.net.nodes.size) (hio : c ∉ h.net.io) (hcf : (h.net.node c).isFork = false)
+    (hs : implShape m = some sh) (hd : sh.des = some dn)
+    (hdn : dn ∉ m.net.io) (hnd : m.net.io.Nodup) (hps : ∀ p ∈ m.net.io, isSeqKind (m.net.node p).kind = false)
+    (hpf : ∀ p ∈ m.net.io, 0 < (m.net.node p).ins.length → 0 < (m.net.node p).outs.length → (m.net.node p).isFork = true)
+    (hni : NoIgnored m (sh.inPorts.zip (padTo (h.net.node c).ins sh.inPorts.length)))
+    (h5 : NNet) (map : Array (Option Nat)) (dang : List (Option Nat)) (he : substituteCore h c m = some (h5, map, dang)) :
+    SubstCert h c m sh dn map h5 ∧
+    (∀ x, x < h5.net.nodes.size → ownN h c x → noTrail (h5.net.node x).ins = true ∧ noTrail (h5.net.node x).outs = true) := by
+  obtain ⟨h2, net4, ren, net5, hil, hol, hfold, hci, hco, e⟩ := substituteCore_inv h c m sh hs h5 map dang he
+  obtain ⟨_, hdnf⟩ := implShape_des m mw sh dn hs hd
+  rw [hd] at hfold
+  exact substituteCore_certP h c m sh dn hw mw hc hio hcf hs (fun _ => hd) (hdnf hdn) hdn hnd hps hpf hni h5 map dang h2 net4 net5 ren
+    hil hol hfold hci hco e
+
+/-- the circuit `substituteCore` builds from a well-formed host is well-formed -/
+theorem substituteCore_cert (h : NNet) (c : Nat) (m : NNet) (sh : Shape) (dn : Nat)
+    (hw : WF h) (mw : WF m) (hc : c < h.net.nodes.size) (hio : c ∉ h.net.io) (hcf : (h.net.node c).isFork = false)
+    (hs : implShape m = some sh) (hd : sh.des = some dn)
+    (hdn : dn ∉ m.net.io) (hnd : m.net.io.Nodup) (hps : ∀ p ∈ m.net.io, isSeqKind (m.net.node p).kind = false)
+    (hpf : ∀ p ∈ m.net.io, 0 < (m.net.node p).ins.length → 0 < (m.net.node p).outs.length → (m.net.node p).isFork = true)
+    (hni : NoIgnored m (sh.inPorts.zip (padTo (h.net.node c).ins sh.inPorts.length)))
+    (h5 : NNet) (map : Array (Option Nat)) (dang : List (Option Nat)) (he : substituteCore h c m = some (h5, map, dang)) :
+    SubstCert h c m sh dn map h5 ∧ WF h5 := by
+  obtain ⟨ct, htr⟩ := substituteCore_certR h c m sh dn hw.toWFr mw hc hio hcf hs hd hdn hnd hps hpf hni h5 map dang he
+  refine ⟨ct, ct.wf'.names, ct.wf'.nodup, ct.wf'.io, fun l hl => ?_, ct.wf'.fwdIn, ct.wf'.fwdOut, fun x hx => ?_⟩
+  · obtain ⟨b1, b2, b3⟩ := ct.wf'.back l hl
+    refine ⟨b1, b2, b3, ct.backR l hl ?_⟩
+    by_cases hlt : l < h.net.lines.size
+    · exact Or.inr (hw.ptsBack l hlt)
+    · exact Or.inl (by omega)
+  · by_cases hown : ownN h c x
+    · exact htr x hx hown
+    · have h1 : x < h.net.nodes.size := by
+        apply Classical.byContradiction; intro hn
+        exact hown (Or.inr (by omega))
+      have h2 : x ≠ c := fun e => hown (Or.inl e)
+      rw [ct.frameNode x h1 h2]; exact hw.trail x h1
 
 end KV.Transform
